@@ -131,3 +131,87 @@ func VerifC05_ApplyUpdate() {
 		rt.Assert(reflect.DeepEqual(res2.Object, res.Object), "L5-idempotence/reapplying-the-same-desired-state-changes-the-object")
 	}
 }
+
+// VerifC05_ApplyUpdate_NumericListKeys: the removal clause for entries of a
+// list-map whose merge key is a NUMBER (ports, numeric names), with the
+// last-applied record going through its real path - marshalled into the
+// annotation by the previous apply and decoded from it by this one. The decoded
+// record must identify the same entries as the observed and desired objects do,
+// whatever the magnitude of the number (large integers print differently when a
+// decoder hands them out as floating point).
+func VerifC05_ApplyUpdate_NumericListKeys() {
+	parent := env.Thing("ns", "p", "puid")
+	key := "port"
+	if rt.Bool("keyed-by-name") {
+		key = "name"
+	}
+	nums := []int64{80, 1000000, 20240101, 9007199254740993}
+	k1 := nums[rt.Choice("first-key", len(nums))]
+	k2 := nums[rt.Choice("second-key", len(nums))]
+	rt.Assume(k1 != k2)
+	mk := func(entries ...map[string]interface{}) *unstructured.Unstructured {
+		o := env.Obj("apps.ex.com/v1", "Widget", "ns", "a", "")
+		l := []interface{}{}
+		for _, e := range entries {
+			l = append(l, e)
+		}
+		o.Object["spec"] = map[string]interface{}{"ports": l}
+		return o
+	}
+	e1 := func(v string) map[string]interface{} { return map[string]interface{}{key: k1, "v": v} }
+	e2 := func(v string, extra bool) map[string]interface{} {
+		m := map[string]interface{}{key: k2, "v": v}
+		if extra {
+			m["opt"] = "set-earlier"
+		}
+		return m
+	}
+	// applied earlier: both entries, the second one with an optional field
+	observed := verifApplied(mk(e1("old"), e2("old", true)), parent, "uid-a")
+	// somebody else appended an entry of their own
+	third := map[string]interface{}{key: int64(7), "v": "theirs"}
+	sp := observed.Object["spec"].(map[string]interface{})
+	sp["ports"] = append(sp["ports"].([]interface{}), third)
+
+	dropFirst := rt.Bool("hook-drops-the-first-entry")
+	var desired *unstructured.Unstructured
+	if dropFirst {
+		desired = mk(e2("new", false))
+	} else {
+		desired = mk(e1("new"), e2("new", false))
+	}
+	res, err := ApplyUpdate(observed, desired)
+	rt.Assert(err == nil, "numeric-keys/error")
+	if err != nil {
+		return
+	}
+	rt.Cover("numeric-keys/applied")
+	ports, _ := res.Object["spec"].(map[string]interface{})["ports"].([]interface{})
+	find := func(k int64) map[string]interface{} {
+		for _, p := range ports {
+			if m, ok := p.(map[string]interface{}); ok && m[key] == interface{}(k) {
+				return m
+			}
+		}
+		return nil
+	}
+	if dropFirst {
+		rt.Assert(find(k1) == nil, "L2-removal/numeric-key-entry-applied-earlier-not-removed")
+	} else {
+		m := find(k1)
+		rt.Assert(m != nil && m["v"] == "new", "L1-containment/numeric-key-entry")
+	}
+	m2 := find(k2)
+	rt.Assert(m2 != nil && m2["v"] == "new", "L1-containment/numeric-key-entry")
+	if m2 != nil {
+		_, still := m2["opt"]
+		rt.Assert(!still, "L2-removal/field-of-numeric-key-entry-applied-earlier-not-removed")
+	}
+	m3 := find(7)
+	rt.Assert(m3 != nil && m3["v"] == "theirs", "L3-preservation/foreign-entry-of-numeric-key-list")
+	want := 3
+	if dropFirst {
+		want = 2
+	}
+	rt.Assert(len(ports) == want, "numeric-keys/entry-count")
+}
